@@ -103,7 +103,7 @@ def build(config, tier):
             R.append(("Into<tuple>", "{ let x: %s = v.into(); %s }" % (tupt, " && ".join("%s == %s" % (b("x.%d" % i), b("a[%d]" % i)) for i in range(n)))))
         if has(r"^impl AsRef<\[%s; %d\]> for %s \{" % (t, n, N)):
             R.append(("AsRef", "{ let x: &%s = v.as_ref(); %s }" % (arr, " && ".join("%s == %s" % (b("x[%d]" % i), b("a[%d]" % i)) for i in range(n)))))
-        if has(r"pub fn write_to_slice\("):
+        if has(r"pub (?:const )?fn write_to_slice\("):
             R.append(("write_to_slice", "{ let mut x = [0 as %s; %d]; v.write_to_slice(&mut x); %s }" % (t, n, " && ".join("%s == %s" % (b("x[%d]" % i), b("a[%d]" % i)) for i in range(n)))))
         # writes: full-view postcondition
         upd = lambda i: "[%s]" % ", ".join(b("s") if j == i else b("a[%d]" % j) for j in range(n))
@@ -113,7 +113,7 @@ def build(config, tier):
                 Wc.append(("IndexMut [%d] = s" % i, "{ let mut w = v; w[%d] = s; %s == %s }" % (i, view("w"), upd(i))))
             if has(r"^impl AsMut<\[%s; %d\]> for %s \{" % (t, n, N)):
                 Wc.append(("AsMut [%d] = s" % i, "{ let mut w = v; { let m: &mut %s = w.as_mut(); m[%d] = s; } %s == %s }" % (arr, i, view("w"), upd(i))))
-            if has(r"pub fn with_%s\(" % LET[i]):
+            if has(r"pub (?:const )?fn with_%s\(" % LET[i]):
                 Wc.append(("with_%s(s)" % LET[i], "{ let w = v.with_%s(s); %s == %s }" % (LET[i], view("w"), upd(i))))
         pre = "let a: %s = vk::any(); let s: %s = vk::any(); let v = %s;" % (arr, t, mkv)
         for (grp, cl) in (("ctor_read", C + R), ("write", Wc)):
@@ -128,7 +128,7 @@ def build(config, tier):
                           split=name + "__split", cls="bits", desc=desc[:600]))
             obs.append(Ob(name + "__split", PROP, spl, fn="%s access paths" % N, kind="bundle-split", solver="cadical", stubs=["sse"], desc=desc[:300]))
         # symbolic 3-step history (sanity lemma): write path and lane chosen by the solver each step
-        if has(r"^impl IndexMut<usize> for %s \{" % N) and has(r"pub fn with_x\("):
+        if has(r"^impl IndexMut<usize> for %s \{" % N) and has(r"pub (?:const )?fn with_x\("):
             step = """let k: usize = vk::any(); vk::assume(k < %d); let p: u8 = vk::any(); let s: %s = vk::any();
         if p %% 3 == 0 { w[k] = s; } else if p %% 3 == 1 { w = match k { %s }; } else { match k { %s } }
         m[k] = s.words()[0];""" % (n, t, " ".join("%d => w.with_%s(s)," % (i, LET[i]) if i < n - 1 else "_ => w.with_%s(s)," % LET[i] for i in range(n)),
